@@ -21,3 +21,4 @@ NOT_DECIDED = 'agreement with F.unfold as values; dilation / groups (unsupported
 def run(ctx: Ctx) -> None:
     ctx.do(TR.rule_alt_paths)
     ctx.do(TR.rule_layout)
+    ctx.do(TR.rule_tt_cov)
